@@ -170,6 +170,14 @@ def evaluate(case):
             sig = (None if strict else known_shape(s, w)) or "C04:call-never-returned:%s-on-%s" % (o["op"][0], o["thread"].split("-")[0])
             viols.append({"signature": sig,
                           "detail": {"op": o["op"][:3], "thread": where, "end_reason": s.end_reason}})
+    if w is not None and not viols and s.end_reason == "done" and case["prog"].get("waits_must_succeed"):
+        # a program in which every result(timeout >= 5 virtual seconds) is owed an answer: a wait that ran into its time-out means
+        # the stack stalled for that long although nothing external was missing
+        import world as _world
+        for o in _world.History(s, w).oplist():
+            if o["op"][0] == "result" and (o["result"][0] == "timeout" or o["result"][:2] == ["exc", "TimeoutError"]):
+                viols.append({"signature": "C04:wait-timed-out:%s" % o["thread"].split("-")[0], "detail": {"op": o["op"], "thread": o["thread"], "t": o["ret_t"]}})
+                break
     if w is not None and w.errors:
         info["world_errors"] = w.errors
     return viols, info
@@ -394,12 +402,25 @@ def nested_cases():
                 "setup": [["build", "ex", st]],
                 "threads": [[["submit", "ex", "f0", {"script": [["ret", 1]]}], ["result", "f0", 50]]],
                 "final": [["shutdown", "ex", True]], "settle": 5}))
+        # (e) from the cancel function: it submits a "please stop" request to the same executor and waits for it (the poll
+        #     thread must be able to resolve that request while the cancel function is still running)
+        st = {"base": base, "layers": [{"kind": "poll", "interval": 0.5, "per_sub": {"f0.fn": {"after": None}},
+                                        "cancel": [["submit", "ex", "n0", inner, ["op", ["result", "n0", 50], ["ret", True]]]]}]}
+        out.append(("cancelfn/poll/%s" % bname, {
+            "waits_must_succeed": True,
+            "setup": [["build", "ex", st]],
+            "threads": [[["submit", "ex", "f0", {"script": [["tag"]]}], ["sleep", 0.75], ["cancel", "f0"], ["result", "n0", 50]]],
+            "final": [["shutdown", "ex", True]], "settle": 5}))
         # (d) from the poll function
         st = {"base": base, "layers": [{"kind": "poll", "interval": 0.5, "calls": [{"op": ["submit", "ex", "n0", inner]}, {}]}]}
         out.append(("pollfn/poll/%s" % bname, {
             "setup": [["build", "ex", st]],
             "threads": [[["submit", "ex", "f0", {"script": [["tag"]]}], ["result", "f0", 50], ["result", "n0", 50]]],
             "final": [["shutdown", "ex", True]], "settle": 5}))
+    for name, prog in out:
+        # in none of these programs is a future abandoned (shutdown comes last, nothing is refused): every timed wait is owed an answer
+        if name not in KNOWN_SHAPED:
+            prog.setdefault("waits_must_succeed", True)
     return out
 
 
